@@ -458,15 +458,13 @@ class Linker:
                 None, offset=relocation.offset, addend=relocation.addend
             )
             if reloc.can_shrink(sym_value, reloc_value):
-                # Apply code patching:
+                # Determine the code patch:
                 begin = relocation.offset
                 size = reloc.size()
                 end = begin + size
                 data = reloc_section.data[begin:end]
                 assert len(data) == size
 
-                # Apply code patch:
-                self.logger.debug("Applying patch for %s", reloc)
                 data, new_relocs = reloc.do_shrink(
                     sym_value, data, reloc_value
                 )
@@ -476,14 +474,14 @@ class Linker:
                 # assert len(data) == size
                 new_end = begin + new_size
                 assert new_end + new_size == end
-                # Do not shrink the data here, we will do this later on.
-                reloc_section.data[begin:new_end] = data
 
                 # Define new memory hole, starting after instruction
                 hole = (new_end, diff)
 
                 # Record this reduction occurence:
-                lst.append((hole, relocation, reloc, new_relocs))
+                lst.append((hole, relocation, reloc, new_relocs, data))
+
+        lst = self._drop_stretching_relaxations(lst)
 
         if not lst:
             self.logger.debug("No linker relaxations found")
@@ -496,7 +494,14 @@ class Linker:
         holes_map = defaultdict(list)  # section name to list of holes.
 
         # Remove old relocations by new ones.
-        for hole, relocation, _, new_relocs in lst:
+        for hole, relocation, reloc, new_relocs, data in lst:
+            # Apply code patch:
+            # Do not shrink the data here, we will do this later on.
+            self.logger.debug("Applying patch for %s", reloc)
+            reloc_section = self.dst.get_section(relocation.section)
+            begin = relocation.offset
+            reloc_section.data[begin : begin + len(data)] = data
+
             # Remove old relocation which is superceeded:
             self.dst.relocations.remove(relocation)
 
@@ -521,14 +526,55 @@ class Linker:
         for holes in holes_map.values():
             holes.sort(key=lambda x: x[0])
 
-        # TODO: at this point, there can be the situation that we have two
-        # sections which become further apart (due to them being in different
-        # memory images. In this case, some relative jumps can become
-        # unreachable. What should be do in this case?
-
         # Code has been patched here. Now update all relocations, symbols and
         # section addresses.
         self._apply_relaxation_holes(holes_map)
+
+    def _drop_stretching_relaxations(self, lst):
+        """Drop the relaxations which might not fit after relaxation.
+
+        The candidates were tested with the addresses before relaxation.
+        The sections of a memory image move closer together, so within an
+        image a distance only decreases. Something in another image (or a
+        section or symbol outside all images) stays where it is, so the
+        distance to it can grow by the amount the image shrinks. Such a
+        candidate must fit in the worst case as well.
+        """
+        # Sections of an image move as a group, the rest stays on its own:
+        groups = {s.name: ("section", s.name) for s in self.dst.sections}
+        for image in self.dst.images:
+            for section in image.sections:
+                groups[section.name] = ("image", image.name)
+
+        # Determine how much each group shrinks at most:
+        shrinkage = defaultdict(int)
+        for hole, relocation, _, _, _ in lst:
+            shrinkage[groups[relocation.section]] += hole[1]
+
+        new_lst = []
+        for candidate in lst:
+            relocation, reloc = candidate[1], candidate[2]
+            symbol = self.dst.symbols_by_id[relocation.symbol_id]
+            reloc_group = groups[relocation.section]
+            sym_group = groups.get(symbol.section)
+            if sym_group != reloc_group:
+                sym_value = self.get_symbol_value(relocation.symbol_id)
+                sym_value += relocation.addend
+                reloc_section = self.dst.get_section(relocation.section)
+                reloc_value = reloc_section.address + relocation.offset
+                # Either end moves down at most the shrinkage of its group:
+                if not (
+                    reloc.can_shrink(
+                        sym_value - shrinkage[sym_group], reloc_value
+                    )
+                    and reloc.can_shrink(
+                        sym_value, reloc_value - shrinkage[reloc_group]
+                    )
+                ):
+                    self.logger.debug("Not relaxing %s", relocation)
+                    continue
+            new_lst.append(candidate)
+        return new_lst
 
     def _apply_relaxation_holes(self, hole_map):
         """Punch holes in the destination object file.
